@@ -362,10 +362,11 @@ fn gen_re(u: &mut Choices, depth: usize) -> String {
         } else {
             atom(u)
         };
-        match u.weighted(&[6, 1, 1, 1]) {
+        match u.weighted(&[6, 1, 1, 1, 2]) {
             1 => piece.push('*'),
             2 => piece.push('+'),
             3 => piece.push('?'),
+            4 => piece.push_str(*u.pick(&["{2}", "{1,2}", "{2,}", "{0,1}", "{3}", "{1}"])),
             _ => {}
         }
         s.push_str(&piece);
